@@ -33,6 +33,9 @@ def cmd_import(src, k, sid):
         if not os.path.exists(f):
             print("missing", f)
             return 1
+    with open(meta) as f:
+        race = json.load(f).get("property") == "C20"
+    demo_cmd = ["go", "test", "-vet=off", "-count=1"] + (["-race"] if race else []) + ["./demo/"]
     wt = "/tmp/seedval-%d" % os.getpid()
     rc, out = sh(["git", "-C", "/repo", "worktree", "add", "-q", "--detach", wt, "HEAD"])
     if rc != 0:
@@ -42,7 +45,7 @@ def cmd_import(src, k, sid):
     try:
         os.makedirs(os.path.join(wt, "demo"))
         shutil.copy(demo, os.path.join(wt, "demo", "demo_test.go"))
-        rc, out = sh(["go", "test", "-vet=off", "-count=1", "./demo/"], cwd=wt)
+        rc, out = sh(demo_cmd, cwd=wt)
         ran.append("unchanged tree: go test ./demo/ -> rc %d" % rc)
         if rc != 0:
             print("demo does not pass on the unchanged tree:\n", out[-2000:])
@@ -63,7 +66,7 @@ def cmd_import(src, k, sid):
             return 1
         os.makedirs(os.path.join(wt, "demo"))
         shutil.copy(demo, os.path.join(wt, "demo", "demo_test.go"))
-        rc, out = sh(["go", "test", "-vet=off", "-count=1", "./demo/"], cwd=wt)
+        rc, out = sh(demo_cmd, cwd=wt)
         ran.append("with change: go test ./demo/ -> rc %d" % rc)
         if rc == 0:
             print("demo passes with the change applied (change is not demonstrated)")
